@@ -707,3 +707,57 @@ Proof.
   - right. replace (firstn cut []) with (@nil pevent) by now destruct cut. cbn [fold_left papply p_wal p_levels persist_of app].
     apply (empty_tree_get (l_levels d) [[]] k ts). now right.
 Qed.
+
+(* ======================= F. reads across one drop compaction ======================= *)
+
+(* C12's compaction theorem with drop prefixes: a key none of whose versions in the
+   compaction inputs carries a prefix reads the same afterwards (ts >= discard) *)
+Theorem drop_compaction_preserves_other_get d d' p inputs O k ts now' :
+  lsm_wf d -> lsm_wf d' ->
+  Forall sorted inputs ->
+  nodup_kv (all_entries d) ->
+  (forall x, In x (all_entries d) <-> In x (concat inputs ++ O)) ->
+  (forall x, In x (all_entries d') <-> In x (compact_filter p (merge_all inputs) ++ O)) ->
+  (forall e, In e (concat inputs) -> dead_marker p e -> cp_overlap p = false ->
+     forall o, In o O -> e_key o = e_key e -> e_ver e < e_ver o) ->
+  cp_discard p <= ts -> cp_now p <= now' ->
+  (forall e, In e (concat inputs) -> e_key e = k -> has_any_prefix (cp_drop p) e = false) ->
+  vis_of now' (db_get d' k ts) = vis_of now' (db_get d k ts).
+Proof.
+  intros Hwf Hwf' Hin Hnd Hbefore Hafter HR Hts Hnow Hk.
+  rewrite !db_get_newest by assumption.
+  set (m := merge_all inputs).
+  assert (Hnd1: nodup_kv (concat inputs ++ O)) by (eapply nodup_kv_ext; eauto).
+  assert (Hndc: nodup_kv (concat inputs)).
+  { intros a b Ha Hb. apply Hnd1; apply in_or_app; now left. }
+  assert (Hm: forall x, In x m <-> In x (concat inputs)).
+  { intros x. split; [apply merge_all_in|now apply merge_all_complete]. }
+  assert (HmO: forall x, In x (m ++ O) <-> In x (concat inputs ++ O)).
+  { intros x. rewrite !in_app_iff, Hm. tauto. }
+  assert (Hnd2: nodup_kv (m ++ O)).
+  { eapply nodup_kv_ext; [|exact Hnd1]. intros x. symmetry. apply HmO. }
+  rewrite (newest_ext (all_entries d) (m ++ O)); auto.
+  2:{ intros x. rewrite Hbefore. symmetry. apply HmO. }
+  assert (Hnd3: nodup_kv (compact_filter p m ++ O)).
+  { intros a b Ha Hb. apply Hnd2; apply in_app_or in Ha, Hb; apply in_or_app.
+    - destruct Ha as [Ha|Ha]; [left; eapply filter_run_sub; eauto|now right].
+    - destruct Hb as [Hb|Hb]; [left; eapply filter_run_sub; eauto|now right]. }
+  rewrite (newest_ext (all_entries d') (compact_filter p m ++ O)); auto.
+  2:{ eapply nodup_kv_ext; [|exact Hnd3]. intros x. symmetry. apply Hafter. }
+  apply drop_filter_preserves_other_reads; auto.
+  - now apply merge_all_sorted.
+  - intros e He. apply HR. now apply Hm.
+  - intros e He. apply Hk. now apply Hm.
+Qed.
+
+(* once no stored entry carries a prefix, a key with the prefix is not found at any ts *)
+Theorem dropped_key_not_found d ps k ts :
+  lsm_wf d ->
+  (forall e, In e (all_entries d) -> user_has_prefix ps (e_key e) = false) ->
+  user_has_prefix ps k = true ->
+  db_get d k ts = None.
+Proof.
+  intros Hwf Hclean Hk. rewrite db_get_newest by assumption.
+  destruct (newest (all_entries d) k ts) as [e|] eqn:E; auto.
+  apply newest_some in E. destruct E as (A & B & _). specialize (Hclean e A). congruence.
+Qed.
